@@ -287,7 +287,7 @@ def run(prog: Program, res: Result) -> None:  # noqa: PLR0912, PLR0915
     # self.globals comes from the global_data parameter
     gl = [n.value for n in ast.walk(cinit.node) if isinstance(n, ast.Assign) and is_self_attr(n.targets[0], "globals")]
     what = "RenderContext.globals is the global_data argument"
-    if len(gl) == 1 and norm(gl[0]) in ("global_data or {}", "global_data"):
+    if len(gl) == 1 and _param_or_empty_default(gl[0], "global_data"):
         res.ok("C10.R2", f"{cinit.file}:{cinit.node.lineno} RenderContext.__init__", what, norm(gl[0]))
     else:
         res.fail("C10.R2", file=cinit.file, line=cinit.node.lineno, qualname="RenderContext.__init__", construct=f"self.globals = {norm(gl[0]) if gl else '<missing>'}", message="context globals are not the global_data passed by the template", what=what)
@@ -384,6 +384,35 @@ def run(prog: Program, res: Result) -> None:  # noqa: PLR0912, PLR0915
             res.ok("C10.R3", f"{cinit.file}:{cinit.node.lineno} RenderContext.__init__", what, "= {}")
         else:
             res.fail("C10.R3", file=cinit.file, line=cinit.node.lineno, qualname="RenderContext.__init__", construct=f"self.{field} = {norm(vals[0]) if vals else '<missing>'}", message=f"template {field} are stored in a mapping that is not a fresh dict", what=what)
+
+
+    # ------------------------------------------------------------------ R4 the chain changes only through the context managers
+    res.rule("C10.R4", "the precedence order of R2 is the order at run time: block scopes are pushed and popped only by RenderContext.extend (try/finally), never by hand, so no stale block scope stays in front of locals/globals (shared with C07.R2/R1)")
+    from checks.shared import check_context_manager_pairing
+    from checks.shared import check_scope_stack_ownership
+
+    check_scope_stack_ownership(prog, res, "C10.R4")
+    check_context_manager_pairing(prog, res, "C10.R4")
+
+
+def _param_or_empty_default(e: ast.AST, param: str) -> bool:
+    """`param`, `param or {}`, `param if <test on param> else {}` (and the mirrored IfExp): the parameter itself whenever one was passed."""
+
+    def empty(x: ast.AST) -> bool:
+        return (isinstance(x, ast.Dict) and not x.keys) or (isinstance(x, ast.Call) and isinstance(x.func, ast.Name) and x.func.id == "dict" and not x.args and not x.keywords)
+
+    def is_p(x: ast.AST) -> bool:
+        return isinstance(x, ast.Name) and x.id == param
+
+    if is_p(e):
+        return True
+    if isinstance(e, ast.BoolOp) and isinstance(e.op, ast.Or) and len(e.values) == 2 and is_p(e.values[0]) and empty(e.values[1]):
+        return True
+    if isinstance(e, ast.IfExp):
+        names = {n.id for n in ast.walk(e.test) if isinstance(n, ast.Name)}
+        if names == {param} and ((is_p(e.body) and empty(e.orelse)) or (is_p(e.orelse) and empty(e.body))):
+            return True
+    return False
 
 
 def _receiver_owned(prog: Program, fi: FunctionInfo, recv: ast.AST, cache: dict[str, set[str]]) -> str | None:
